@@ -21,12 +21,14 @@
    signal delivery and the pool's breakage detection are the runtime's; the
    model's "bounded" is a bound on the number of moves, wall-clock time is
    measured by the harness. *)
-From Coq Require Import String List Bool Arith Lia.
-From SK Require Import Model.Skel Model.Lifecycle Spec.Lifecycle
-     Proofs.LifecycleProgress Proofs.LifecycleTop
-     Gen.Skeleton.
+From Coq Require Import String ZArith List Bool Arith Lia.
+From SK Require Import Model.Skel Model.Stm Model.CallCount Model.Lifecycle
+     Model.LifecycleSk Spec.Lifecycle
+     Proofs.CallCount Proofs.LifecycleProgress Proofs.LifecycleTop
+     Gen.Skeleton Gen.SkelTree Gen.Exprs.
 Import ListNotations.
 Local Open Scope list_scope.
+Local Open Scope nat_scope.
 
 Definition F : facts := facts_of sk_execute sk_run_mp.
 
@@ -96,6 +98,98 @@ Theorem C10_locked_regions :
   takes_store_lock sk_preallocate = true /\ takes_store_lock sk_sync = true /\
   1 <= crit_k (crit_of sk_preallocate) /\ 1 <= crit_k (crit_of sk_sync).
 Proof. vm_compute. repeat split; repeat constructor. Qed.
+
+(* ------------------- the small functions around the life cycle (T1) *)
+(* run(): several files ALWAYS go through the pool, whatever the worker
+   count - the process isolation every "abrupt worker exit" statement below
+   relies on (a task executed in the calling process would take the caller
+   down with it) *)
+Theorem C10_several_files_use_the_pool : forall files : Z,
+  (1 < files)%Z -> run_uses_pool files = true.
+Proof. intros files H. unfold run_uses_pool. apply Z.ltb_lt. exact H. Qed.
+
+(* ThreadManager.stop(): the extracted body, executed for either value of
+   the `running` flag it tests, makes exactly the calls the model's
+   MStop*/MJoin* steps stand for: nothing for a thread never started,
+   otherwise event.set() and THEN thread.join(); the flag is written *)
+Theorem C10_thread_stop_is_model : forall running,
+  run_if running Exec sk_tm_stop = model_stop_calls running.
+Proof. intros [|]; vm_compute; reflexivity. Qed.
+
+Theorem C10_thread_stop_shape :
+  if_tests_cell "running" sk_tm_stop = true /\
+  mem_str "running" (writes_of sk_tm_stop) = true.
+Proof. vm_compute. split; reflexivity. Qed.
+
+(* ... which is what the model does at MStopRes / MStopInfo *)
+Theorem C10_model_stop_steps : forall f c s ph oe,
+  s_pc s = MStopRes ph oe ->
+  step_main f c s =
+  Some (match s_res s with
+        | RNotStarted => set_pc s (next_after_res f ph oe)
+        | _ => set_pc (set_rstop s true) (MJoinRes ph oe)
+        end).
+Proof.
+  intros f c s ph oe H. unfold step_main. rewrite H.
+  destruct (s_res s); reflexivity.
+Qed.
+
+(* over EVERY event sequence stop() admits (exceptions included) the thread
+   is joined at most once and told to stop at most once *)
+Theorem C10_thread_joined_at_most_once : forall t,
+  trl tk_tm_stop t ->
+  (count (is_call "thread_join") t <= 1)%nat /\
+  (count (is_call "event_set") t <= 1)%nat.
+Proof.
+  intros t H. split; apply (count_bounded_list _ _ _ _ H); vm_compute; reflexivity.
+Qed.
+
+(* start() starts the thread once and records it; __init__ creates event and
+   thread but does NOT start the thread (the model's *NotStarted states) *)
+Theorem C10_thread_start_init_shape :
+  str_list_eqb (calls_of sk_tm_start) ["thread_start"] = true /\
+  mem_str "running" (writes_of sk_tm_start) = true /\
+  mem_str "thread_start" (calls_of sk_tm_init) = false /\
+  mem_str "thread_new" (calls_of sk_tm_init) = true /\
+  mem_str "event_new" (calls_of sk_tm_init) = true /\
+  mem_str "running" (writes_of sk_tm_init) = true.
+Proof. vm_compute. repeat split; reflexivity. Qed.
+
+(* _ensure_worker_processes_killed(): every os.kill is guarded against a
+   worker that is already gone and the function raises nothing itself - the
+   model's MKill step cannot fail; the child list is taken once *)
+Theorem C10_kill_workers_guarded : kill_guarded sk_kill_workers = true.
+Proof. vm_compute. reflexivity. Qed.
+
+Theorem C10_kill_workers_lists_once : forall t,
+  trl tk_kill_workers t ->
+  (count (is_call "active_children") t <= 1)%nat /\
+  (count (is_call "ps_children") t <= 1)%nat.
+Proof.
+  intros t H. split; apply (count_bounded_list _ _ _ _ H); vm_compute; reflexivity.
+Qed.
+
+Theorem C10_model_kill_step_total : forall f c s,
+  s_pc s = MKill -> step_main f c s <> None.
+Proof. intros f c s H. unfold step_main. rewrite H. discriminate. Qed.
+
+(* SearchConstraintsManager.__init__ only initialises its three fields;
+   FileSearcher.stats is a pure accessor of the run's statistics object *)
+Theorem C10_plain_constructor_and_accessor :
+  str_list_eqb (writes_of sk_cm_init)
+               ["search_catalog"; "global_constraints"; "global_restrictions"]
+  = true /\
+  calls_of sk_cm_init = [] /\
+  str_list_eqb (reads_of sk_fs_stats) ["stats"] = true /\
+  calls_of sk_fs_stats = [] /\ writes_of sk_fs_stats = [].
+Proof. vm_compute. repeat split; reflexivity. Qed.
+
+(* both exception classes keep the constructor arguments stored by
+   BaseException.__new__: a FileSearchException raised in a worker can be
+   re-created in the parent (the future carries it as a pickle) *)
+Theorem C10_exceptions_cross_processes :
+  plain_exc_init sk_fse_init = true /\ plain_exc_init sk_rse_init = true.
+Proof. vm_compute. split; reflexivity. Qed.
 
 (* ------------------------------------------------------------- theorems *)
 (* a fault that fired is never followed by a normal return *)
@@ -445,6 +539,17 @@ Proof.
     vm_compute. repeat split; reflexivity.
 Qed.
 
+Print Assumptions C10_several_files_use_the_pool.
+Print Assumptions C10_thread_stop_is_model.
+Print Assumptions C10_thread_stop_shape.
+Print Assumptions C10_model_stop_steps.
+Print Assumptions C10_thread_joined_at_most_once.
+Print Assumptions C10_thread_start_init_shape.
+Print Assumptions C10_kill_workers_guarded.
+Print Assumptions C10_kill_workers_lists_once.
+Print Assumptions C10_model_kill_step_total.
+Print Assumptions C10_plain_constructor_and_accessor.
+Print Assumptions C10_exceptions_cross_processes.
 Print Assumptions C10_facts_ok.
 Print Assumptions C10_execute_mapping.
 Print Assumptions C10_main_mapping.
